@@ -143,6 +143,16 @@ func (e *Engine) buildVC(f *ssa.Function, cfg *FnConfig, dead map[string]bool) (
 	c.run()
 	c.checkPost(c.params)
 	c.initObligations()
+	// vacuity guard: some return must be reachable under everything that was assumed
+	if len(c.rets) > 0 {
+		var rs []string
+		for _, r := range c.rets {
+			rs = append(rs, r.reach)
+		}
+		o := &Obl{Class: "cover", Fn: c.fnName(), Pos: c.eng.prog.Fset.Position(f.Pos()), Text: "a return is reachable (assumptions are consistent)", Guard: "(or " + strings.Join(rs, " ") + " false)", Cond: "false", Expect: "sat"}
+		o.Name = c.fnName() + "#cover:return"
+		c.obls = append(c.obls, o)
+	}
 	return c, nil
 }
 
@@ -231,7 +241,7 @@ func (e *Engine) verifyFn(f *ssa.Function, cfg *FnConfig) *FnResult {
 		if o.Class == "hinv" {
 			continue
 		}
-		if cfg != nil && cfg.Classes != nil && !cfg.Classes[o.Class] {
+		if cfg != nil && cfg.Classes != nil && !cfg.Classes[o.Class] && o.Class != "cover" {
 			continue
 		}
 		real = append(real, o)
@@ -278,7 +288,33 @@ func (e *Engine) solve(preamble string, obls []*Obl, timeoutMs int, mv []modelVa
 		return 0
 	}
 	t0 := time.Now()
-	pending := obls
+	// cover (vacuity) queries run against the quantifier-free part of the context: they look for
+	// inconsistent assumptions, and satisfiability under quantified copy/append axioms is beyond the solvers
+	var covers, normal []*Obl
+	for _, o := range obls {
+		if o.Expect == "sat" {
+			covers = append(covers, o)
+		} else {
+			normal = append(normal, o)
+		}
+	}
+	if len(covers) > 0 {
+		var qf strings.Builder
+		for _, l := range strings.Split(preamble, "\n") {
+			if strings.HasPrefix(l, "(assert") && strings.Contains(l, "(forall ") {
+				continue
+			}
+			qf.WriteString(l)
+			qf.WriteString("\n")
+		}
+		e.runSolver(solvers[0], qf.String(), covers, timeoutMs, nil)
+		for _, o := range covers {
+			if o.Result == "" {
+				o.Result = "unknown"
+			}
+		}
+	}
+	pending := normal
 	for si, sv := range solvers {
 		if len(pending) == 0 {
 			break
@@ -316,6 +352,10 @@ func oblQueries(o *Obl) [][]string {
 	if g == "" {
 		g = "true"
 	}
+	if o.Expect == "sat" {
+		// cover query: asserting (not (not g)) == g ; satisfiable means covered
+		return [][]string{{"(not " + g + ")"}}
+	}
 	return [][]string{{"(=> " + g + " " + o.Cond + ")"}}
 }
 
@@ -352,6 +392,11 @@ func (e *Engine) runSolverChunk(sv solverSpec, preamble string, obls []*Obl, tim
 	s.WriteString(sv.pre(timeoutMs))
 	s.WriteString(preamble)
 	for i, o := range obls {
+		short := len(o.Any) > 2 && sv.name != "cvc5"
+		if short {
+			// many alternative termination measures: most of them fail, none deserves the full budget
+			fmt.Fprintf(&s, "(set-option :timeout %d)\n", timeoutMs/4+300)
+		}
 		for j, alt := range oblQueries(o) {
 			for k, f := range alt {
 				fmt.Fprintf(&s, "(echo \"@@%d.%d.%d\")\n(push 1)\n(assert (not %s))\n(check-sat)\n", i, j, k, f)
@@ -365,10 +410,13 @@ func (e *Engine) runSolverChunk(sv solverSpec, preamble string, obls []*Obl, tim
 				s.WriteString("(pop 1)\n")
 			}
 		}
+		if short {
+			fmt.Fprintf(&s, "(set-option :timeout %d)\n", timeoutMs)
+		}
 	}
 	if e.opts.DumpDir != "" && len(obls) > 0 {
 		os.MkdirAll(e.opts.DumpDir, 0755)
-		os.WriteFile(filepath.Join(e.opts.DumpDir, sanitize(obls[0].Fn)+"."+sv.name+".smt2"), s.Bytes(), 0644)
+		os.WriteFile(filepath.Join(e.opts.DumpDir, sanitize(obls[0].Name)+"."+sv.name+".smt2"), s.Bytes(), 0644)
 	}
 	// overall budget: every query may use its timeout
 	nq := 0
@@ -441,6 +489,21 @@ func (e *Engine) runSolverChunk(sv solverSpec, preamble string, obls []*Obl, tim
 			}
 		}
 		o.Raw = strings.Join(raw, ",")
+		if o.Expect == "sat" {
+			switch {
+			case anySat:
+				o.Result, o.By = "proved", sv.name
+			case anyProved:
+				o.Result, o.By = "refuted", sv.name
+				o.Raw += " (vacuous: no return reachable)"
+				o.final = true
+			default:
+				if o.Result == "" {
+					o.Result = "unknown"
+				}
+			}
+			continue
+		}
 		switch {
 		case anyProved:
 			o.Result = "proved"
